@@ -8,8 +8,8 @@ import (
 
 // Violation is one oracle finding.
 type Violation struct {
-	Check  string   `json:"check"`  // oracle check id
-	Props  []string `json:"props"`  // properties this finding is evidence against
+	Check  string   `json:"check"` // oracle check id
+	Props  []string `json:"props"` // properties this finding is evidence against
 	Height int64    `json:"height"`
 	Detail string   `json:"detail"`
 	Shape  string   `json:"shape,omitempty"` // coarse classification used to match known findings
